@@ -8,14 +8,24 @@ import (
 	"verif.local/vsync/kern"
 )
 
+// Now is the bubble clock. With Kernel.TickNs > 0 every reading is TickNs later
+// than the one before, as on a real machine (the bubble clock itself stands
+// still while code runs): two readings inside one call differ.
+//
 //go:norace
-func Now() time.Time { return time.Now() }
+func Now() time.Time {
+	t := time.Now()
+	if k := kern.Cur(); k != nil && k.TickNs > 0 {
+		return t.Add(time.Duration(k.Tick()))
+	}
+	return t
+}
 
 //go:norace
-func Since(t time.Time) time.Duration { return time.Since(t) }
+func Since(t time.Time) time.Duration { return Now().Sub(t) }
 
 //go:norace
-func Until(t time.Time) time.Duration { return time.Until(t) }
+func Until(t time.Time) time.Duration { return t.Sub(Now()) }
 
 // Timer mirrors time.Timer.
 type Timer struct {
